@@ -2,6 +2,8 @@
 #include "common.h"
 #include <symengine/parser.h>
 #include <symengine/real_double.h>
+#include <symengine/mul.h>
+#include <cctype>
 using namespace SymEngine;
 int main(int argc, char **argv)
 {
@@ -9,6 +11,20 @@ int main(int argc, char **argv)
     Args a = parse_args(argc, argv);
     if (!has(a, "s")) return 2;
     std::string s = a["s"];
+    if (std::string(argv[1]).find("implicit_mul") != std::string::npos) {
+        // split at the longest prefix that reads as a number (digits [. digits] [e[+-]digits]); compare with the product built from the two parts
+        size_t i = 0, n = s.size(); bool dg = false;
+        while (i < n && isdigit((unsigned char)s[i])) { i++; dg = true; }
+        if (i < n && s[i] == '.') { size_t j = i + 1; bool fd = false; while (j < n && isdigit((unsigned char)s[j])) { j++; fd = true; } if (dg || fd) { i = j; dg = true; } }
+        if (dg && i < n && (s[i] == 'e' || s[i] == 'E')) { size_t j = i + 1; if (j < n && (s[j] == '+' || s[j] == '-')) j++; bool ed = false; while (j < n && isdigit((unsigned char)s[j])) { j++; ed = true; } if (ed) i = j; }
+        if (!dg || i == 0) { std::cout << "not an implicit multiplication token\n"; return 2; }
+        try {
+            RCP<const Basic> got = parse(s), want = i == n ? parse(s.substr(0, i)) : mul(parse(s.substr(0, i)), parse(s.substr(i)));
+            std::cout << "parse(\"" << s << "\") = " << got->__str__() << " ; (" << s.substr(0, i) << ") * (" << s.substr(i) << ") = " << want->__str__() << "\n";
+            if (!eq(*got, *want)) { std::cout << "REPRODUCED: implicit multiplication is not the product of the number and the identifier\n"; return 1; }
+        } catch (SymEngineException &e) { std::cout << "exception " << e.what() << "\n"; return 2; }
+        return 0;
+    }
     bool plain = true; for (char c : s) if (c < '0' || c > '9') plain = false;
     RCP<const Basic> r;
     try { r = parse(s); } catch (SymEngineException &e) { std::cout << "parse(\"" << s << "\") threw " << e.what() << "\nREPRODUCED: a numeric literal is rejected\n"; return 1; }
